@@ -4,26 +4,32 @@ import glob, json, os, re
 
 # ----------------------------------------------------------------------------- generic tree walking
 
-def children(n):
-    """Direct child nodes (dicts with 'k') of a node, in source order."""
+def _children_unordered(n, out):
     if isinstance(n, dict):
         for key, v in n.items():
             if key in ("sp", "msp", "namesp"):
                 continue
             if isinstance(v, dict):
                 if "k" in v:
-                    yield v
+                    out.append(v)
                 else:
-                    for c in children(v):
-                        yield c
+                    _children_unordered(v, out)
             elif isinstance(v, list):
                 for x in v:
                     if isinstance(x, dict):
                         if "k" in x:
-                            yield x
+                            out.append(x)
                         else:
-                            for c in children(x):
-                                yield c
+                            _children_unordered(x, out)
+
+
+def children(n):
+    """Direct child nodes (dicts with 'k') of a node, in *source order* (the JSON maps are key-sorted,
+    so order is re-established from the spans)."""
+    out = []
+    _children_unordered(n, out)
+    out.sort(key=lambda c: (c.get("sp") or [0, 0])[:2])
+    return out
 
 
 def walk(n, into_closures=True, into_items=False):
@@ -510,6 +516,12 @@ class Mir:
         """file:line of a function given (suffix of) its qualified name; trait impl methods are matched
         through `<path::Type as Trait>::name`."""
         hits = [b for b in self.bodies if b["crate"] == crate and b["kind"] != "Closure" and (b["nfn"] == qual or b["nfn"].endswith("::" + qual))]
+        if not hits and base and name:
+            rx2 = re.compile(r"^(?:[\w:]*::)?<impl (?:[\w:]*::)?%s(?:<.*>)?>::%s$" % (re.escape(base), re.escape(name)))
+            hits = [b for b in self.bodies if b["crate"] == crate and b["kind"] != "Closure" and rx2.match(b["fn"])]
+            if len(hits) > 1:
+                mod = qual.rsplit("::", 2)[0]
+                hits = [b for b in hits if b["fn"].startswith(mod + "::")] or hits
         if not hits and base and name:
             rx = re.compile(r"^<(?:&|&mut )?(?:[\w:]*::)?%s(?:<.*>)? as .*>::%s$" % (re.escape(base), re.escape(name)))
             hits = [b for b in self.bodies if b["crate"] == crate and b["kind"] != "Closure" and rx.match(b["fn"])]
